@@ -14,6 +14,9 @@ use super::Version;
 #[derive(Clone, PartialEq, Eq, Debug)]
 pub struct AccessStructure {
     version: Version,
+    // ID given to the next attribute. IDs are never reused, even after the
+    // deletion of an attribute, since they are baked into the rights.
+    next_attribute_id: usize,
     // Use a hash-map to efficiently find dimensions by name.
     dimensions: HashMap<String, Dimension>,
 }
@@ -21,7 +24,8 @@ pub struct AccessStructure {
 impl AccessStructure {
     pub fn new() -> Self {
         Self {
-            version: Version::V1,
+            version: Version::V2,
+            next_attribute_id: 0,
             dimensions: HashMap::new(),
         }
     }
@@ -107,16 +111,14 @@ impl AccessStructure {
         encryption_hint: EncryptionHint,
         after: Option<&str>,
     ) -> Result<(), Error> {
-        let cnt = self
-            .dimensions
-            .values()
-            .map(Dimension::nb_attributes)
-            .sum::<usize>();
+        let id = self.next_attribute_id;
 
         self.dimensions
             .get_mut(&attribute.dimension)
             .ok_or_else(|| Error::DimensionNotFound(attribute.dimension.clone()))?
-            .add_attribute(attribute.name, encryption_hint, after, cnt)?;
+            .add_attribute(attribute.name, encryption_hint, after, id)?;
+
+        self.next_attribute_id += 1;
 
         Ok(())
     }
@@ -346,10 +348,7 @@ fn combine(
 
 impl Default for AccessStructure {
     fn default() -> Self {
-        Self {
-            version: Version::V1,
-            dimensions: HashMap::new(),
-        }
+        Self::new()
     }
 }
 
@@ -364,7 +363,8 @@ mod serialization {
         type Error = Error;
 
         fn length(&self) -> usize {
-            1 + to_leb128_len(self.dimensions.len())
+            1 + to_leb128_len(self.next_attribute_id)
+                + to_leb128_len(self.dimensions.len())
                 + self
                     .dimensions
                     .iter()
@@ -376,7 +376,8 @@ mod serialization {
         }
 
         fn write(&self, ser: &mut Serializer) -> Result<usize, Self::Error> {
-            let mut n = ser.write_leb128_u64(self.version as u64)?;
+            let mut n = ser.write_leb128_u64(Version::V2 as u64)?;
+            n += ser.write_leb128_u64(self.next_attribute_id as u64)?;
             n += ser.write_leb128_u64(self.dimensions.len() as u64)?;
             self.dimensions.iter().try_for_each(|(name, dimension)| {
                 n += ser.write_vec(name.as_bytes())?;
@@ -388,22 +389,36 @@ mod serialization {
 
         fn read(de: &mut Deserializer) -> Result<Self, Self::Error> {
             let version = de.read_leb128_u64()?;
-            let dimensions = if version == Version::V1 as u64 {
-                (0..de.read_leb128_u64()?)
-                    .map(|_| {
-                        let name = String::from_utf8(de.read_vec()?)
-                            .map_err(|e| Error::ConversionFailed(e.to_string()))?;
-                        let dimension = de.read::<Dimension>()?;
-                        Ok((name, dimension))
-                    })
-                    .collect::<Result<HashMap<_, _>, Error>>()
+            let next_attribute_id = if version == Version::V2 as u64 {
+                Some(<usize>::try_from(de.read_leb128_u64()?)?)
+            } else if version == Version::V1 as u64 {
+                None
             } else {
-                Err(Error::ConversionFailed(
-                    "unable to deserialize versions prior to V3".to_string(),
-                ))
-            }?;
+                return Err(Error::ConversionFailed(format!(
+                    "unable to deserialize access structure version {version}"
+                )));
+            };
+            let dimensions = (0..de.read_leb128_u64()?)
+                .map(|_| {
+                    let name = String::from_utf8(de.read_vec()?)
+                        .map_err(|e| Error::ConversionFailed(e.to_string()))?;
+                    let dimension = de.read::<Dimension>()?;
+                    Ok((name, dimension))
+                })
+                .collect::<Result<HashMap<_, _>, Error>>()?;
+            // V1 structures did not store the next ID: use the first one that
+            // is greater than all the IDs in use.
+            let next_attribute_id = next_attribute_id.unwrap_or_else(|| {
+                dimensions
+                    .values()
+                    .flat_map(Dimension::attributes)
+                    .map(|a| a.get_id() + 1)
+                    .max()
+                    .unwrap_or_default()
+            });
             Ok(Self {
-                version: Version::V1,
+                version: Version::V2,
+                next_attribute_id,
                 dimensions,
             })
         }
